@@ -27,6 +27,7 @@ import os, json, glob, builtins, hashlib
 import fw
 from fw import Outcome
 import c15gen as G
+import c15lits
 
 PROP = "C15"
 EXTRA_MODS = ["Export.Run"]
@@ -46,8 +47,13 @@ ASSUMPTIONS = ["(T) and (E) cover formulas inside the grammar of Export/Model.v 
 # --------------------------------------------------------------------------
 def repro_script(case, qi=None):
     """stand-alone reproducer: builds the model with modelx, exports it, queries both"""
-    L = ["import modelx as mx, sys, os, subprocess, tempfile, json, shutil",
-         "m = mx.new_model('M')", "S = []"]
+    L = ["import modelx as mx, sys, os, subprocess, tempfile, json, shutil"]
+    lits = [v[1] for _, v in case.get("mrefs", []) if v[0] == "lit"] + \
+           [rf[1][1] for sp in case["spaces"] for rf in sp["refs"] if rf[1][0] == "lit"]
+    helper = os.path.join(fw.VERIF, "harness") if any(c15lits.needs_helper(k) for k in lits) else None
+    if helper:
+        L.append("sys.path.insert(0, %r); import c15lits   # int/float/str subclasses used as reference values" % helper)
+    L += ["m = mx.new_model('M')", "S = []"]
     for sp in case["spaces"]:
         par = "m" if sp["parent"] is None else "S[%d]" % sp["parent"]
         kw = ""
@@ -77,6 +83,8 @@ def repro_script(case, qi=None):
             return repr(tuple(v[1]))
         if k == "module":
             return "__import__(%r)" % v[1]
+        if k == "lit":
+            return c15lits.pyexpr(v[1])
         return repr(v[1])
     for n, v in case.get("mrefs", []):
         L.append("m.%s = %s" % (n, val(v)))
@@ -102,7 +110,8 @@ def repro_script(case, qi=None):
     L.append("qs = %r" % [qexpr(q) for q in qs])
     L.append("def ev(ROOT, q):\n    try: return repr(eval(q))\n    except Exception as e: return 'ERR ' + type(e).__name__")
     L.append("mine = [ev(m, q) for q in qs]")
-    L.append("code = 'import sys; sys.modules[\"modelx\"]=None; sys.path.insert(0, %r)\\n' % d + "
+    L.append("code = 'import sys; sys.modules[\"modelx\"]=None; sys.path.insert(0, %r)\\n' % d + " +
+             (repr("sys.path.insert(0, %r)\n" % helper) + " + " if helper else "") +
              "'try:\\n    from pkg_nomx import mx_model as ROOT\\nexcept BaseException as e:\\n    print(\"IMPORT-ERR\", type(e).__name__, e); raise SystemExit\\n' + "
              "'for q in %r:\\n    try: print(repr(eval(q)))\\n    except Exception as e: print(\"ERR\", type(e).__name__)\\n' % qs")
     L.append("out = subprocess.run([sys.executable, '-c', code], stdout=subprocess.PIPE, text=True, "
